@@ -2,20 +2,20 @@
 # tools/seedregress.sh [ids...]  -- for every seeded/<id>: scratch worktree of /repo HEAD + patch.diff, run the checks
 # meta.json lists under detected_by (quick tier, FCPMC_REPO=<worktree>), print whether at least one reports a violation.
 # Serial on purpose.  Output: one line per mutant; summary at the end.
-cd /verif
+V="${VERIF_ROOT:-$(cd "$(dirname "$0")/.." && pwd)}"; cd "$V"
 ids=("$@"); [ ${#ids[@]} -eq 0 ] && ids=($(ls seeded))
 missed=0; n=0
 for id in "${ids[@]}"; do
-  if python3 -c "import json,sys;sys.exit(0 if json.load(open('/verif/seeded/$id/meta.json')).get('obsolete') else 1)"; then echo "$id: obsolete (no longer breaks the property, see meta.json)"; continue; fi
+  if python3 -c "import json,sys;sys.exit(0 if json.load(open('$V/seeded/$id/meta.json')).get('obsolete') else 1)"; then echo "$id: obsolete (no longer breaks the property, see meta.json)"; continue; fi
   wt=/tmp/sr/$id; mkdir -p /tmp/sr
   git -C /repo worktree remove --force $wt >/dev/null 2>&1
   git -C /repo worktree add -q --detach $wt HEAD || { echo "$id: WORKTREE FAILED"; continue; }
-  if ! git -C $wt apply /verif/seeded/$id/patch.diff 2>/dev/null; then echo "$id: PATCH DOES NOT APPLY"; missed=$((missed+1)); git -C /repo worktree remove --force $wt; continue; fi
-  checks=$(python3 -c "import json;print(' '.join(json.load(open('/verif/seeded/$id/meta.json')).get('detected_by',{}).keys()))")
+  if ! git -C $wt apply $V/seeded/$id/patch.diff 2>/dev/null; then echo "$id: PATCH DOES NOT APPLY"; missed=$((missed+1)); git -C /repo worktree remove --force $wt; continue; fi
+  checks=$(python3 -c "import json;print(' '.join(json.load(open('$V/seeded/$id/meta.json')).get('detected_by',{}).keys()))")
   [ -z "$checks" ] && checks=$(echo $id | cut -d- -f1)
   hit=""
   for c in $checks; do
-    out=$(FCPMC_REPO=$wt FCPMC_OUT=/tmp/sr/out-$id ./run $c quick 2>&1); rc=$?
+    out=$(FCPMC_CACHE=/verif/.cache FCPMC_REPO=$wt FCPMC_OUT=/tmp/sr/out-$id ./run $c quick 2>&1); rc=$?
     cls=$(echo "$out" | grep -m1 'class=' | sed -E 's/.*class=([^ ]+).*/\1/' | cut -c1-110)
     if [ $rc -ne 0 ]; then hit="$hit $c($cls)"; break; fi
   done
